@@ -4,6 +4,11 @@
 #include "common/caseio.hpp"
 
 #include <micm/process/arrhenius_rate_constant.hpp>
+#include <micm/process/branched_rate_constant.hpp>
+#include <micm/process/surface_rate_constant.hpp>
+#include <micm/process/ternary_chemical_activation_rate_constant.hpp>
+#include <micm/process/troe_rate_constant.hpp>
+#include <micm/process/tunneling_rate_constant.hpp>
 #include <micm/process/user_defined_rate_constant.hpp>
 #include <micm/solver/rosenbrock.hpp>
 #include <micm/solver/solver_builder.hpp>
@@ -175,7 +180,110 @@ static void fam_ratec(Toks& tk, Out& out)
           tk, out, ncells)));
 }
 
+
+// ---- family "ratef": every built-in rate-constant type against a long-double transcription of its documented formula ----
+//   ratef type T P rho p1..p8        (values as decimal floating-point tokens)
+//   type 0 Arrhenius      k = A exp(C/T) (T/D)^B (1 + E P)                                   p = A B C D E
+//        1 Troe           k0 = k0A exp(k0C/T) (T/300)^k0B, kinf likewise;
+//                         k = k0 M / (1 + k0 M / kinf) Fc^(N / (N + log10(k0 M / kinf)^2))   p = k0A k0B k0C kinfA kinfB kinfC Fc N
+//        2 ternary chemical activation: k = k0 / (1 + k0 M / kinf) Fc^(...)                  p as Troe
+//        3 tunneling      k = A exp(-B/T + C/T^3)                                            p = A B C
+//        4 branched       alkoxy / nitrate branch of X exp(-Y/T) with A(T, M) and z          p = X Y a0 n branch
+//        5 user defined   k = scaling * parameter                                            p = scaling parameter
+//        6 surface        k = 4 N pi r^2 / (r / D + 4 / (v gamma)), v = sqrt(8 R T / (pi MW)) p = gamma D MW r N
+static long double ld_pow(long double a, long double b) { return std::pow(a, b); }
+static void fam_ratef(Toks& tk, Out& out)
+{
+  int type = (int)tk.i();
+  double T = tk.d(), P = tk.d(), rho = tk.d();
+  std::vector<double> p;
+  for (int i = 0; i < 8; ++i)
+    p.push_back(tk.d());
+  micm::Conditions cd;
+  cd.temperature_ = T;
+  cd.pressure_ = P;
+  cd.air_density_ = rho;
+  double got = 0;
+  long double want = 0;
+  const long double lT = T, lP = P, lM = rho;
+  auto troe_like = [&](bool troe) -> long double
+  {
+    long double k0 = (long double)p[0] * std::exp((long double)p[2] / lT) * ld_pow(lT / 300.0L, p[1]);
+    long double kinf = (long double)p[3] * std::exp((long double)p[5] / lT) * ld_pow(lT / 300.0L, p[4]);
+    long double r = k0 * lM / kinf;
+    long double lg = std::log10(r);
+    long double f = ld_pow(p[6], (long double)p[7] / ((long double)p[7] + lg * lg));
+    return (troe ? k0 * lM : k0) / (1.0L + r) * f;
+  };
+  switch (type)
+  {
+    case 0:
+      got = micm::ArrheniusRateConstant({ .A_ = p[0], .B_ = p[1], .C_ = p[2], .D_ = p[3], .E_ = p[4] }).Calculate(cd);
+      want = (long double)p[0] * std::exp((long double)p[2] / lT) * ld_pow(lT / (long double)p[3], p[1]) * (1.0L + (long double)p[4] * lP);
+      break;
+    case 1:
+      got = micm::TroeRateConstant({ .k0_A_ = p[0], .k0_B_ = p[1], .k0_C_ = p[2], .kinf_A_ = p[3], .kinf_B_ = p[4], .kinf_C_ = p[5], .Fc_ = p[6], .N_ = p[7] }).Calculate(cd);
+      want = troe_like(true);
+      break;
+    case 2:
+      got = micm::TernaryChemicalActivationRateConstant({ .k0_A_ = p[0], .k0_B_ = p[1], .k0_C_ = p[2], .kinf_A_ = p[3], .kinf_B_ = p[4], .kinf_C_ = p[5], .Fc_ = p[6], .N_ = p[7] }).Calculate(cd);
+      want = troe_like(false);
+      break;
+    case 3:
+      got = micm::TunnelingRateConstant({ .A_ = p[0], .B_ = p[1], .C_ = p[2] }).Calculate(cd);
+      want = (long double)p[0] * std::exp(-(long double)p[1] / lT + (long double)p[2] / (lT * lT * lT));
+      break;
+    case 4:
+    {
+      micm::BranchedRateConstantParameters bp;
+      bp.branch_ = p[4] != 0 ? micm::BranchedRateConstantParameters::Branch::Nitrate : micm::BranchedRateConstantParameters::Branch::Alkoxy;
+      bp.X_ = p[0];
+      bp.Y_ = p[1];
+      bp.a0_ = p[2];
+      bp.n_ = (int)p[3];
+      got = micm::BranchedRateConstant(bp).Calculate(cd);
+      const long double NA = 6.02214076e23L;
+      auto Afun = [&](long double t, long double m) -> long double
+      {
+        long double k0 = 2.0e-22L * NA * 1.0e-6L * std::exp((long double)(int)p[3]);
+        long double a = k0 * m;
+        long double b = 0.43L * ld_pow(t / 298.0L, -8.0L);
+        long double lg = std::log10(a / b);
+        return a / (1.0L + a / b) * ld_pow(0.41L, 1.0L / (1.0L + lg * lg));
+      };
+      long double z = Afun(293.0L, 2.45e19L / NA * 1.0e6L) * (1.0L - (long double)p[2]) / (long double)p[2];
+      long double pre = (long double)p[0] * std::exp(-(long double)p[1] / lT);
+      long double At = Afun(lT, lM);
+      want = p[4] != 0 ? pre * (At / (At + z)) : pre * (z / (z + At));
+      break;
+    }
+    case 5:
+    {
+      std::vector<double> cp{ p[1] };
+      got = micm::UserDefinedRateConstant({ .label_ = "u", .scaling_factor_ = p[0] }).Calculate(cd, cp.begin());
+      want = (long double)p[0] * (long double)p[1];
+      break;
+    }
+    case 6:
+    {
+      micm::Species sp("X", std::map<std::string, double>{ { "molecular weight [kg mol-1]", p[2] }, { "diffusion coefficient [m2 s-1]", p[1] } });
+      std::vector<double> cp{ p[3], p[4] };
+      got = micm::SurfaceRateConstant({ .label_ = "s", .species_ = sp, .reaction_probability_ = p[0] }).Calculate(cd, cp.begin());
+      const long double R = 8.31446261815324L, PI = 3.14159265358979323846264338327950288L;
+      long double v = std::sqrt(8.0L * R / (PI * (long double)p[2]) * lT);
+      want = 4.0L * (long double)p[4] * PI * (long double)p[3] * (long double)p[3] /
+             ((long double)p[3] / (long double)p[1] + 4.0L / (v * (long double)p[0]));
+      break;
+    }
+    default: out.tok("BAD_TYPE"); return;
+  }
+  out.tok("type=" + std::to_string(type));
+  const long double err = std::fabs((long double)got - want);
+  if (!(err <= 1e-11L * std::fabs(want) + 1e-300L) && !(std::isnan(got) && std::isnan((double)want)))
+    out.tok("ORACLE_RATE_CONSTANT_NOT_THE_DOCUMENTED_FORMULA");
+}
+
 int main()
 {
-  return vio::run({ { "ratec", fam_ratec } });
+  return vio::run({ { "ratec", fam_ratec }, { "ratef", fam_ratef } });
 }
